@@ -149,7 +149,27 @@ impl Buffer {
             }
         }
         match &token.value {
-            Value::Identifier(ident) => self.push_str(&ident.to_string()),
+            Value::Identifier(ident) => {
+                let name = ident.to_string();
+                match name
+                    .strip_prefix('\\')
+                    .and_then(|name| name.strip_suffix('\\'))
+                {
+                    // The symbol of an extended identifier contains the un-escaped name.
+                    // A backslash inside of the identifier must be doubled again.
+                    Some(extended_name) => {
+                        self.push_ch('\\');
+                        for ch in extended_name.chars() {
+                            if ch == '\\' {
+                                self.push_ch('\\');
+                            }
+                            self.push_ch(ch);
+                        }
+                        self.push_ch('\\');
+                    }
+                    None => self.push_str(&name),
+                }
+            }
             Value::String(string) => {
                 self.push_ch('"');
                 for byte in &string.bytes {
@@ -248,6 +268,14 @@ mod tests {
     #[test]
     fn preserves_identifier_casing() {
         check_token_formatted("FooBar foobar", &["FooBar", "foobar"]);
+    }
+
+    #[test]
+    fn extended_identifier_formatting() {
+        check_token_formatted(
+            r"\foo bar\ \a\\b\ \\\\ \\\a\",
+            &[r"\foo bar\", r"\a\\b\", r"\\\\", r"\\\a\"],
+        );
     }
 
     #[test]
